@@ -258,7 +258,7 @@ class MPI(long):
         return ((self.bit_length() + 7) // 8)
 
     def to_mpibytes(self):
-        return MPIs.int_to_bytes(self.bit_length(), 2) + MPIs.int_to_bytes(self, self.byte_length())
+        return MPIs.int_to_bytes(self.bit_length(), 2) + self.to_bytes(self.byte_length(), 'big')
 
     def __len__(self):
         return self.byte_length() + 2
